@@ -150,7 +150,7 @@ def coq_audit(props_rel):
         if "Closed under the global context" in text:
             axioms[name] = []
             continue
-        ax = re.findall(r"^([A-Za-z_][\w'.]*)\s*:", text, flags=re.M)
+        ax = [x for x in re.findall(r"^([A-Za-z_][\w'.]*)\s*:", text, flags=re.M) if x != "Axioms"]
         axioms[name] = ax
         for a in ax:
             if a not in ALLOWED_AXIOMS:
